@@ -99,6 +99,9 @@ def base_trees():
         mk("r", 100, True, children=[f("b", 1), mk("d", 3, True, children=[f("a", 2, mtime=2)])]),
         mk("r", 100, True, mtime=2, children=[mk("a", 3, True, children=[]), f("d", 1)]),
         mk("r", 100, True, children=[mk("d", 3, True, children=[f("a", 1), f("b", 2)]), mk("e", 4, True, children=[])]),
+        # sibling directories that both have contents: a fault in one must not hide the other's entries
+        mk("r", 100, True, children=[mk("d", 3, True, children=[f("a", 1)]), mk("e", 4, True, children=[f("x", 5)]),
+                                     mk("g", 6, True, children=[mk("h", 7, True, children=[f("y", 8)])])]),
     ]
 
 
